@@ -248,10 +248,13 @@ class CountingCuckooFilter(CuckooFilter):
         # either move everything around or hit the maximum number of swaps
         idx = random.choice([idx_1, idx_2])
         prv_bin = CountingCuckooBin(fingerprint, 1)
+        orig_bin = prv_bin
+        swaps = []
         for _ in range(self.max_swaps):
             # select one element to be swapped out...
             swap_elm = random.randint(0, self.bucket_size - 1)
             swap_finger = self.buckets[idx][swap_elm]
+            swaps.append((idx, swap_elm, swap_finger))
             prv_bin, self.buckets[idx][swap_elm] = swap_finger, prv_bin
 
             # now find another place to put this fingerprint
@@ -264,8 +267,11 @@ class CountingCuckooFilter(CuckooFilter):
                 self.__unique_elements += 1
                 return None
 
-        # if we got here we have an error... we might need to know what is left
-        return prv_bin
+        # if we got here we have an error... undo the evictions so that no stored
+        # fingerprint is lost and hand back the bin that could not be inserted
+        for s_idx, s_elm, s_val in reversed(swaps):
+            self.buckets[s_idx][s_elm] = s_val
+        return orig_bin
 
     def _check_if_present(self, idx_1: int, idx_2: int, fingerprint: int) -> Union[int, None]:
         """wrapper for checking if fingerprint is already inserted"""
